@@ -102,6 +102,12 @@ def gen_history(rng, length):
         {"op": "create", "kind": last[0], "path": "p", "out": f"e{counter}b.torrent", "pl": pl2},
         {"op": "rebuild", "metas": [f"e{counter}b.torrent"], "contents": ["p"], "dest": f"edest{counter}b"},
         {"op": "recheck", "meta": f"e{counter}b.torrent", "content": f"edest{counter}b"},
+        {"op": "edit", "cli": True, "flags": [], "meta": f"e{counter}a.torrent",
+         "req": {"comment": "only a comment " + str(counter)}},
+        {"op": "edit", "cli": True, "flags": [], "meta": f"e{counter}b.torrent",
+         "req": {"announce": ["http://only.tracker/" + str(counter)]}},
+        {"op": "edit", "cli": True, "flags": [], "meta": f"e{counter}a.torrent",
+         "req": {"source": "only-source"}},
     ]
     return hist
 
@@ -154,6 +160,11 @@ def run_history(seed, length):
     return hist, None, mutated_between
 
 
+def run_group(seeds, length):
+    """Several histories one after the other in ONE worker process (state accumulates)."""
+    return [run_history(s, length) for s in seeds]
+
+
 def _short(obs):
     return {k: (v[:120] + "..." if isinstance(v, str) and len(v) > 120 else v) for k, v in obs.items()}
 
@@ -166,9 +177,12 @@ def run(tier, seed, replay=None):
     if replay:
         length = replay["case"].get("length", length)
     # several histories per worker process, so that process state accumulates across them
+    groups = [seeds[i::6] for i in range(6)]          # fixed: which histories share a process
     with concurrent.futures.ProcessPoolExecutor(max_workers=6) as pool:
-        for s, (hist, failure, mutated) in zip(seeds, pool.map(run_history, seeds,
-                                                              [length] * len(seeds))):
+        results = {}
+        for grp, outs in zip(groups, pool.map(run_group, groups, [length] * 6)):
+            results.update(dict(zip(grp, outs)))
+        for s, (hist, failure, mutated) in ((s, results[s]) for s in seeds):
             kinds = [o["op"] + (":" + o["kind"] if "kind" in o else "") for o in hist]
             run.case(kinds, mutated, sample={"seed": s, "ops": kinds},
                      classes=sorted(set(o["op"] for o in hist)))
